@@ -110,70 +110,91 @@ Definition c13_catch (a : list Z) : list Z :=
   | Some AFailYield => [4]
   end.
 
-(* a sequence of cheatcode calls issued by one frame.
-   [depth; steps...], step = 0 :: check(cond) :: check(not cond) :: siglen :: sig chars ++ cdlen :: calldata
-                              (a vm.assert* overload; the handler halmos derives from the signature
-                               is run on the calldata: a raise becomes KRaise of that class)
-                          |  1 :: is_false(cond)       (vm.assume)
+(* a sequence of steps run by one frame: cheatcode calls and two-way branches.
+   Inputs of the model are the indices 0..n-1 of the sampled valuations (each step carries the
+   truth table of its condition over them) plus one tag n+k per step k, by which the oracle
+   recognises a condition or its negation.  The oracle is the table of the answers the real
+   ex.check gave, keyed by (the set of samples satisfying the path it was asked about, step,
+   negated?); what is not in the table is Unknown.
+   [depth; n; nsteps; steps...; records...]
+     step   = 0 :: siglen :: sig chars ++ cdlen :: calldata ++ n bits   (a vm.assert* overload; the handler halmos
+                                                derives from the signature is run on the calldata: a raise becomes KRaise)
+            | 1 :: is_false(cond) :: n bits                             (vm.assume)
+            | 2 :: n bits                                               (JUMPI on the condition, sides rejoin)
+     record = mask :: step :: negated :: answer (0 unsat / 1 sat / 2 unknown)
    -> [9] when an exception escapes, else the outcomes, each as
       [kind (1 yielded by FailCheatcode / 2 reaches the end / 3 stuck / 4 frame error); path length;
-       is_global_fail_set of the yielded context; number of frames] *)
-Inductive senc := SA (r1 r2 : Z) (sg : string) (cd : list Z) | SU (lf : Z).
-Fixpoint parse_steps (fuel : nat) (l : list Z) : list senc :=
-  match fuel with
-  | O => []
+       is_global_fail_set of the yielded context; number of frames; mask of the samples on the path] *)
+Inductive senc := SA (sg : string) (cd : list Z) (tbl : list Z) | SU (lf : Z) (tbl : list Z) | SB (tbl : list Z).
+Fixpoint parse_steps (cnt n : nat) (l : list Z) : list senc * list Z :=
+  match cnt with
+  | O => ([], l)
   | S f =>
     match l with
-    | 0 :: r1 :: r2 :: n :: rest =>
-      let sg := string_of_codes (firstn (Z.to_nat n) rest) in
-      match skipn (Z.to_nat n) rest with
-      | m :: rest' => SA r1 r2 sg (firstn (Z.to_nat m) rest') :: parse_steps f (skipn (Z.to_nat m) rest')
-      | [] => []
+    | 0 :: m :: rest =>
+      let sg := string_of_codes (firstn (Z.to_nat m) rest) in
+      match skipn (Z.to_nat m) rest with
+      | c :: rest' =>
+        let cd := firstn (Z.to_nat c) rest' in
+        let rest'' := skipn (Z.to_nat c) rest' in
+        let '(st, r) := parse_steps f n (skipn n rest'') in
+        (SA sg cd (firstn n rest'') :: st, r)
+      | [] => ([], [])
       end
-    | 1 :: lf :: rest => SU lf :: parse_steps f rest
-    | _ => []
+    | 1 :: lf :: rest => let '(st, r) := parse_steps f n (skipn n rest) in (SU lf (firstn n rest) :: st, r)
+    | 2 :: rest => let '(st, r) := parse_steps f n (skipn n rest) in (SB (firstn n rest) :: st, r)
+    | _ => ([], [])
     end
   end.
-(* the k-th condition is `input = k`; the oracle recognises a condition (or its negation) by
-   probing it *)
+Definition tbl_of (st : senc) : list Z := match st with SA _ _ t | SU _ t | SB t => t end.
 Fixpoint first_at (want : bool) (c : Z -> bool) (n : nat) (k : Z) : Z :=
   match n with
   | O => k
   | S n' => if Bool.eqb (c k) want then k else first_at want c n' (k + 1)
   end.
+Fixpoint find_rec (recs : list Z) (mask k neg : Z) : Z :=
+  match recs with
+  | m :: k' :: g :: a :: r => if (m =? mask) && (k' =? k) && (g =? neg) then a else find_rec r mask k neg
+  | _ => 2
+  end.
 Definition c13_seq (a : list Z) : list Z :=
   match a with
-  | depth :: rest =>
-    let steps := parse_steps (List.length rest) rest in
-    let n := List.length steps in
+  | depth :: nz :: cnt :: rest =>
+    let n := Z.to_nat nz in
+    let '(steps, recs) := parse_steps (Z.to_nat cnt) n rest in
+    let ns := List.length steps in
+    let cond_of (k : Z) (st : senc) : cond Z := fun i =>
+      if (0 <=? i) && (i <? nz) then nth (Z.to_nat i) (tbl_of st) 0 =? 1 else i =? nz + k in
     let ident (c : cond Z) : bool * Z :=
-      if c (-1) then (true, first_at false c n 0) else (false, first_at true c n 0) in
-    let nthz (k : Z) := nth (Z.to_nat k) steps (SU 0) in
-    let chk : path Z -> cond Z -> sat_result := fun _ c =>
-      let '(neg, k) := ident c in
-      match nthz k with SA r1 r2 _ _ => dec_sat (if neg then r2 else r1) | SU _ => Unknown end in
+      if c (-1) then (true, first_at false c ns nz - nz) else (false, first_at true c ns nz - nz) in
+    let mask_of (p : path Z) : Z :=
+      fold_right (fun j acc => acc + (if sat_path Z p (Z.of_nat j) then 2 ^ Z.of_nat j else 0)) 0 (seq 0 n) in
+    let nthz (k : Z) := nth (Z.to_nat k) steps (SB []) in
+    let chk : path Z -> cond Z -> sat_result := fun p c =>
+      let '(neg, k) := ident c in dec_sat (find_rec recs (mask_of p) k (bz neg)) in
     let lf : cond Z -> bool := fun c =>
-      let '(_, k) := ident c in match nthz k with SU b => negb (b =? 0) | _ => false end in
+      let '(_, k) := ident c in match nthz k with SU b _ => negb (b =? 0) | _ => false end in
     let prog := map (fun ks : Z * senc =>
       let '(k, st) := ks in
       match st with
-      | SU _ => KAssume Z (fun i => i =? k)
-      | SA _ _ sg cd =>
+      | SU _ _ => KAssume Z (cond_of k st)
+      | SB _ => KBranch Z (cond_of k st)
+      | SA sg cd _ =>
         match mk_assert_handler sg with
         | None => KRaise Z "unbound"
         | Some h => match hres_raises (run_handler h cd) with
                     | Some cls => KRaise Z cls
-                    | None => KAssert Z (fun i => i =? k)
+                    | None => KAssert Z (cond_of k st)
                     end
         end
-      end) (combine (map Z.of_nat (seq 0 n)) steps) in
+      end) (combine (map Z.of_nat (seq 0 ns)) steps) in
     let e := mkExec Z [] (repeat (Ctx ENone []) (S (Z.to_nat depth))) in
-    match run_prog Z chk lf e prog with
+    match run_prog Z chk lf 2 e prog with
     | None => [9]
     | Some outs =>
       flat_map (fun o =>
         let enc kind e' := [kind; Z.of_nat (List.length (ex_path Z e')); bz (is_global_fail_set (top_ctx Z e'));
-                            Z.of_nat (List.length (ex_frames Z e'))] in
+                            Z.of_nat (List.length (ex_frames Z e')); mask_of (ex_path Z e')] in
         match o with
         | Yielded _ e' => enc 1 e'
         | Continues _ e' => enc 2 e'
@@ -181,7 +202,7 @@ Definition c13_seq (a : list Z) : list Z :=
         | FrameError _ e' => enc 4 e'
         end) outs
     end
-  | [] => []
+  | _ => []
   end.
 
 Definition table : list (string * (list Z -> list Z)) :=
